@@ -6,6 +6,8 @@ package tools
 import "os"
 
 func RobustRename(oldpath, newpath string) error {
+	VerifPoint("rename.pre")
+	defer VerifPoint("rename.post")
 	return os.Rename(oldpath, newpath)
 }
 
